@@ -31,8 +31,9 @@ type echCase struct {
 	Op    string   `json:"op"`
 	Keys  []string `json:"keys"`
 	Hello aHello   `json:"hello"`
-	Res   aRes     `json:"res"`
-	Holds bool     `json:"holds"`
+	Res     aRes     `json:"res"`
+	Holds   bool     `json:"holds"`
+	Classes []string `json:"classes"` // admissible alert classes when the specification admits more than one
 }
 
 func (c *echCase) key() string {
@@ -199,10 +200,14 @@ func compareWithSpec(kr *keyring, c *echCase, sent []byte, o obsNewConn, eo encO
 			return "passed through but alert/close on the client side"
 		}
 	case "abort":
-		if o.Class != want.Class {
-			return fmt.Sprintf("alert class: spec says %s, code returned %s (%s)", want.Class, o.Class, o.Err)
+		okClass := o.Class == want.Class
+		for _, cl := range c.Classes {
+			okClass = okClass || o.Class == cl
 		}
-		wantAlert := []byte{0x15, 3, 3, 0, 2, 2, alertCode[want.Class]}
+		if !okClass {
+			return fmt.Sprintf("alert class: spec says %s %v, code returned %s (%s)", want.Class, c.Classes, o.Class, o.Err)
+		}
+		wantAlert := []byte{0x15, 3, 3, 0, 2, 2, alertCode[o.Class]}
 		if !bytes.Equal(o.Alert, wantAlert) {
 			return fmt.Sprintf("alert bytes: want %x got %x", wantAlert, o.Alert)
 		}
